@@ -15,7 +15,76 @@ mod world;
 mod driver;
 mod batch;
 
+pub mod alloc_count {
+    use std::alloc::{GlobalAlloc, Layout, System};
+    use std::sync::atomic::{AtomicUsize, Ordering};
+    pub static CUR: AtomicUsize = AtomicUsize::new(0);
+    pub static PEAK: AtomicUsize = AtomicUsize::new(0);
+    /// bytes allocated by the simulator itself (network model, logs) while dust-dds code is on the stack
+    pub static EXEMPT: AtomicUsize = AtomicUsize::new(0);
+    pub static EXEMPT_DEPTH: AtomicUsize = AtomicUsize::new(0);
+    pub static BIG_TRACE: AtomicUsize = AtomicUsize::new(0);
+    pub static BIG_LIMIT: AtomicUsize = AtomicUsize::new(32 << 20);
+    pub struct Counting;
+    pub struct Exempt;
+    pub fn exempt() -> Exempt {
+        EXEMPT_DEPTH.fetch_add(1, Ordering::Relaxed);
+        Exempt
+    }
+    impl Drop for Exempt {
+        fn drop(&mut self) {
+            EXEMPT_DEPTH.fetch_sub(1, Ordering::Relaxed);
+        }
+    }
+    pub fn exempt_bytes() -> usize {
+        EXEMPT.load(Ordering::Relaxed)
+    }
+    unsafe impl GlobalAlloc for Counting {
+        unsafe fn alloc(&self, l: Layout) -> *mut u8 {
+            if l.size() > BIG_LIMIT.load(Ordering::Relaxed) && BIG_TRACE.load(Ordering::Relaxed) == 1 {
+                // debugging aid (VERIF_ALLOC_TRACE=1): where does a giant allocation come from
+                BIG_TRACE.store(2, Ordering::Relaxed);
+                eprintln!("big allocation of {} bytes at\n{}", l.size(), std::backtrace::Backtrace::force_capture());
+                BIG_TRACE.store(1, Ordering::Relaxed);
+            }
+            let p = unsafe { System.alloc(l) };
+            if !p.is_null() {
+                let c = CUR.fetch_add(l.size(), Ordering::Relaxed) + l.size();
+                PEAK.fetch_max(c, Ordering::Relaxed);
+                if EXEMPT_DEPTH.load(Ordering::Relaxed) > 0 {
+                    EXEMPT.fetch_add(l.size(), Ordering::Relaxed);
+                }
+            }
+            p
+        }
+        unsafe fn dealloc(&self, p: *mut u8, l: Layout) {
+            unsafe { System.dealloc(p, l) };
+            CUR.fetch_sub(l.size(), Ordering::Relaxed);
+        }
+    }
+    /// start a measurement: returns the live heap size and resets the peak to it
+    pub fn begin() -> usize {
+        let c = CUR.load(Ordering::Relaxed);
+        PEAK.store(c, Ordering::Relaxed);
+        EXEMPT.store(0, Ordering::Relaxed);
+        c
+    }
+    pub fn peak() -> usize {
+        PEAK.load(Ordering::Relaxed)
+    }
+}
+#[global_allocator]
+static GLOBAL: alloc_count::Counting = alloc_count::Counting;
+
 fn main() {
+    if let Ok(v) = std::env::var("VERIF_ALLOC_TRACE") {
+        if let Ok(n) = v.parse::<usize>() {
+            if n > 1 {
+                alloc_count::BIG_LIMIT.store(n, std::sync::atomic::Ordering::Relaxed);
+            }
+        }
+        alloc_count::BIG_TRACE.store(1, std::sync::atomic::Ordering::Relaxed);
+    }
     let args: Vec<String> = std::env::args().collect();
     std::process::exit(driver::main(&args[1..]));
 }
